@@ -2034,14 +2034,15 @@ def run(ctx):
     quick = ctx.tier == "quick"
     ctx.rule = ("cases = (a) option-mask: one option route x subset of the 6 definable option layers (+ layers of a "
                 "foreign platform, + layers defining None) x platform in {default,p} x stage; (b) variable-mask: the "
-                "same for one variable over the 8 variable layers (user global/stage included); (c) chain: variables "
+                "same for one variable over the 10 variable layers (global/stage sections of two user files included); (c) chain: variables "
                 "referring to variables (depth 1-6) spread over random layers with an optional fault (undefined, "
                 "defined only on another platform, incomplete, invalid value, cycle, self reference, replica); "
                 "(d) typed: 1-4 typed options with values from per-type pools (valid and invalid); (e) structural "
                 "probes; (f) unit cases of override_object / interpolate on random trees / strings. non-trivial = "
                 ">= 2 layers define the key (masks), the input has >= 1 reference (interp), the trees share a key "
-                "(override), always (others); distinct by canonical JSON of the case. thorough: all 2^6 option masks "
-                "and all 2^8 variable masks for both platforms and both stages. (g) half of the cases of (a)-(e) asked "
+                "(override), >= 2 files with >= 2 stage sections (variable files), always (others); distinct by canonical "
+                "JSON of the case. thorough: all 2^6 option masks for both platforms and both stages, all 2^10 variable "
+                "masks for both platforms (stage alternating). (g) half of the cases of (a)-(e) asked "
                 "again with a random non-default combination of raw / include_default / is_primitive / "
                 "inject_missing_fields. (h) sequence: a description with 3-5 components (>= 2 per stage), 3-6 option "
                 "routes and one variable defined by random subsets of the global AND stage-scoped blueprints / "
@@ -2071,7 +2072,7 @@ def run(ctx):
                 "independent); one case per component; expectation = layering + substitution of the ORIGINAL document. "
                 "Sequences: half of the components own a variable that reaches `v` (which siblings re-define). (m) "
                 "a sample of the cases (every sibling case, every 5th other) is run AGAIN at the end of the run in "
-                "another order (answers must be the first ones) and in 2 (thorough: 4) child processes with other "
+                "another order (answers must be the first ones) and in 2 (thorough: 3) child processes with other "
                 "PYTHONHASHSEEDs (answers must be this process's).")
     ctx.assumptions = [
         "generated strings contain no '[' (array access is not modelled) and no dotted variable names",
@@ -2115,7 +2116,8 @@ def run(ctx):
         if quick:
             vpicked = [(m, pl, rng.choice([0, 1])) for m in rng.sample(vsets, 120) for pl in ("default", "p")]
         else:
-            vpicked = [(m, pl, st) for m in vsets for pl in ("default", "p") for st in (0, 1)]
+            # every subset of the 10 variable layers on both platforms (the stage alternates)
+            vpicked = [(m, pl, (k + j) % 2) for k, m in enumerate(vsets) for j, pl in enumerate(("default", "p"))]
         for m, pl, st in vpicked:
             foreign = [t for t in FOREIGN if rng.random() < 0.4]
             # variable files that hold a section for the stage which does not mention the variable
@@ -2142,7 +2144,7 @@ def run(ctx):
         for _ in range(20 if quick else 200):
             cases.append(gen_shadowed(rng))
         # (e'') siblings of one stage with private variables and variable-to-variable references of their own
-        for _ in range(60 if quick else 700):
+        for _ in range(60 if quick else 400):
             cases.extend(gen_siblings(rng))
         # every case is also asked through the flattened forms of its description (what the runtime executes)
         for case in cases:
@@ -2174,8 +2176,8 @@ def run(ctx):
         unit_interp(ctx, rng, 600 if quick else 10000)
         unit_layer_files(ctx, rng, 150 if quick else 2500, tmpdir)
         # the same cases later in this process / in processes with other hash seeds
-        later_streams(ctx, tmpdir, 160 if quick else 1500, 60 if quick else 400,
-                      [ctx.seed + 101, ctx.seed + 202] if quick else [ctx.seed + 101, ctx.seed + 202, 7, 4242])
+        later_streams(ctx, tmpdir, 160 if quick else 800, 60 if quick else 250,
+                      [ctx.seed + 101, ctx.seed + 202] if quick else [ctx.seed + 101, ctx.seed + 202, 4242])
     finally:
         shutil.rmtree(tmpdir, ignore_errors=True)
 
